@@ -46,7 +46,8 @@ package common
 
 //@ -- NewIntegerFromString: VERIFIED contract in zz_contracts_c33_text_verif.go (C33): modifies nothing, val(v) >= 0 and the parsed value;
 //@ -- it now documents its panics (not a decimal / negative), so the three C05 callers, which pass string constants, `trustpre` it.
-//@ -- The clause `x == ExtraStoragePriceStep ==> val(v) == 10000` is kept there as an `assumes` (value of the literal "0.0001").
+//@ -- The clauses `x == ExtraStoragePriceStep ==> val(v) == 10000` (C05) and `x == "89.87671232" ==> val(v) == 8987671232` (C25) are kept
+//@ -- there as `assumes` (values of two string literals).
 //@ -- NewInteger: VERIFIED contract in zz_contracts_c33_text_verif.go (val(v) == x * 100000000)
 
 //@ -- formatting of amounts for error messages: total (no panic for any value, including negative ones)
